@@ -256,7 +256,7 @@ Lemma pmod_S f op id n k v rest :
       | Some sorted =>
           pmod f op id (pn_set_str n k' ki)
                (map (fun x => (k, x)) (filter is_var_json vv)
-                ++ map (fun x => (k, picast x)) sorted ++ rest)%list
+                ++ map (fun x => (k, x)) sorted ++ rest)%list
       end
   | _ => (pn_set_str n k' ki, Some "can't handle")
   end.
@@ -283,7 +283,7 @@ Lemma ppath_S f k v rest :
       | None => None
       | Some sorted =>
           ppath f (map (fun x => (k, x)) (filter is_var_json vv)
-                   ++ map (fun x => (k, picast x)) sorted ++ rest)%list
+                   ++ map (fun x => (k, x)) sorted ++ rest)%list
       end
   | _ => None
   end.
@@ -473,12 +473,11 @@ Qed.
 Lemma expand_size k vv sorted rest :
   sort_values (filter (fun x => negb (is_var_json x)) vv) = Some sorted ->
   (pairs_size (map (fun x => (k, x)) (filter is_var_json vv)
-               ++ map (fun x => (k, picast x)) sorted ++ rest) + 2
+               ++ map (fun x => (k, x)) sorted ++ rest) + 2
    = pairs_size ((k, JArr vv) :: rest))%nat.
 Proof.
   intros Hs. rewrite !pairs_size_app, pairs_size_cons, vsize_arr.
-  rewrite (pairs_size_map k (fun x => x)) by reflexivity.
-  rewrite (pairs_size_map k picast) by apply vsize_picast.
+  rewrite !(pairs_size_map k (fun x => x)) by reflexivity.
   rewrite (lsum_sort _ _ Hs).
   pose proof (lsum_filter is_var_json vv). lia.
 Qed.
@@ -1240,18 +1239,15 @@ Qed.
 Lemma pat_ok_arr pl :
   pat_ok (JArr pl) = true ->
   (length (filter is_var_json pl) <= 1)%nat /\
-  (forall x, In x pl -> is_null x = false) /\
   (forall x, In x pl -> pat_ok x = true).
 Proof.
   unfold pat_ok. cbn [wf_json no_propvar_keys arrays_ok]. intros H.
   apply andb_true_iff in H. destruct H as [H H3].
   apply andb_true_iff in H. destruct H as [H1 H2].
   apply andb_true_iff in H3. destruct H3 as [H3 H5].
-  apply andb_true_iff in H3. destruct H3 as [H3 H4].
-  split; [apply Nat.leb_le; exact H3|]. split.
-  - intros x Hin. apply negb_true_iff in H4. eapply existsb_false; eassumption.
-  - intros x Hin. rewrite forallb_forall in H1, H2, H5.
-    rewrite (H1 _ Hin), (H2 _ Hin), (H5 _ Hin). reflexivity.
+  split; [apply Nat.leb_le; exact H3|].
+  intros x Hin. rewrite forallb_forall in H1, H2, H5.
+  rewrite (H1 _ Hin), (H2 _ Hin), (H5 _ Hin). reflexivity.
 Qed.
 
 Lemma wf_obj dk :
@@ -1277,33 +1273,17 @@ Proof.
     + eexists; split; reflexivity.
 Qed.
 
-Lemma picast_idem c :
-  scalar_const c = true -> is_null c = false -> picast (picast c) = picast c.
-Proof.
-  unfold scalar_const. intros H Hn. apply andb_true_iff in H. destruct H as [Hs _].
-  destruct c as [|x|x|s|l|m]; cbn [is_scalar is_null] in *; try discriminate.
-  - destruct x; reflexivity.
-  - cbn [picast]. generalize (Z_to_string x). intros w. destruct w; reflexivity.
-  - cbn [picast].
-    destruct (has_prefix "?" s || has_prefix "F_" s || has_prefix "B_" s || has_prefix "S_" s) eqn:E.
-    + cbn [picast]. rewrite E. reflexivity.
-    + clear E. destruct s; reflexivity.
-Qed.
-
 Lemma picast_var s : is_var s = true -> picast (JStr s) = JStr s.
 Proof. unfold is_var. intros H. cbn [picast]. rewrite H. reflexivity. Qed.
-
-Lemma picast_struct x : is_scalar x = false -> picast x = x.
-Proof. destruct x; cbn [is_scalar]; try discriminate; reflexivity. Qed.
 
 Lemma pkey_nonvar k : is_var k = false -> pkey k = k.
 Proof. unfold pkey. intros ->. reflexivity. Qed.
 
-(** Value relation: the pattern value lays over the event value, or it is the
-    cast of a constant of a pattern array and the event value is that constant. *)
+(** Value relation: the pattern value lays over the event value, or it is a
+    scalar constant (of a pattern array) and the event value is that constant. *)
 Inductive VL (b : bindings) : json -> json -> Prop :=
 | VL_lay pv dv : pat_ok pv = true -> wf_json dv = true -> Lay b pv dv -> VL b pv dv
-| VL_cast c : scalar_const c = true -> is_null c = false -> VL b (picast c) c.
+| VL_const c : scalar_const c = true -> VL b c c.
 
 (** The pattern pairs are matched, in order, by a subsequence of the event pairs. *)
 Inductive PL (b : bindings) : list (string * json) -> list (string * json) -> Prop :=
@@ -1370,16 +1350,13 @@ Qed.
 Lemma consts_subseq b : forall pl D',
   Forall2 (Lay b) pl D' ->
   (forall d, In d D' -> is_scalar d = true) ->
-  (forall x, In x pl -> is_null x = false) ->
   subseq (filter (fun x => negb (is_var_json x)) pl) D' /\
-  forall c, In c (filter (fun x => negb (is_var_json x)) pl) ->
-            scalar_const c = true /\ is_null c = false.
+  forall c, In c (filter (fun x => negb (is_var_json x)) pl) -> scalar_const c = true.
 Proof.
-  induction 1 as [|x d pl D' Hxd _ IH]; intros Hsc Hnn.
+  induction 1 as [|x d pl D' Hxd _ IH]; intros Hsc.
   - split; [constructor|intros c []].
   - destruct IH as [IH1 IH2].
     { intros d' Hd'. apply Hsc. right. exact Hd'. }
-    { intros x' Hx'. apply Hnn. right. exact Hx'. }
     cbn [filter]. destruct (is_var_json x) eqn:Ev; cbn [negb].
     + split; [apply ss_skip; exact IH1|exact IH2].
     + assert (Hx : scalar_const x = true).
@@ -1389,22 +1366,21 @@ Proof.
         rewrite (Hsc d (or_introl eq_refl)) in Hd. discriminate. }
       pose proof (Lay_scalar _ _ _ Hx Hxd) as ->. split.
       * apply ss_take. exact IH1.
-      * intros c [<-|Hc]; [|apply IH2; exact Hc].
-        split; [exact Hx|]. apply Hnn. left. reflexivity.
+      * intros c [<-|Hc]; [exact Hx|apply IH2; exact Hc].
 Qed.
 
 Lemma PL_sub b k pp ep : forall sc sd,
   is_var k = false ->
   subseq sc sd ->
-  (forall c, In c sc -> scalar_const c = true /\ is_null c = false) ->
+  (forall c, In c sc -> scalar_const c = true) ->
   PL b pp ep ->
-  PL b (map (fun x => (k, picast x)) sc ++ pp) (map (fun x => (k, x)) sd ++ ep).
+  PL b (map (fun x => (k, x)) sc ++ pp) (map (fun x => (k, x)) sd ++ ep).
 Proof.
   intros sc sd Hk Hss. induction Hss as [l|x a l _ IH|x a l _ IH]; intros Hc HPL.
   - cbn [map app]. apply PL_skip_app. exact HPL.
   - cbn [map app]. apply PL_skip. apply IH; assumption.
   - cbn [map app]. apply PL_match; [exact Hk| |].
-    + destruct (Hc x (or_introl eq_refl)) as [H1 H2]. apply VL_cast; assumption.
+    + apply VL_const. apply Hc. left. reflexivity.
     + apply IH; [|exact HPL]. intros c Hin. apply Hc. right. exact Hin.
 Qed.
 
@@ -1423,10 +1399,10 @@ Lemma arr_PL b k pl dl pp ep sc sd :
   PL b pp ep ->
   sort_values (filter (fun x => negb (is_var_json x)) pl) = Some sc ->
   sort_values dl = Some sd ->
-  PL b (map (fun x => (k, picast x)) sc ++ pp) (map (fun x => (k, x)) sd ++ ep).
+  PL b (map (fun x => (k, x)) sc ++ pp) (map (fun x => (k, x)) sd ++ ep).
 Proof.
   intros Hk Hok Hwf HLay HPL Hsc Hsd.
-  destruct (pat_ok_arr _ Hok) as (_ & Hnn & Hoks).
+  destruct (pat_ok_arr _ Hok) as (_ & Hoks).
   destruct (Lay_arr _ _ _ HLay) as (dl0 & D' & R & E & HF & HP). injection E as <-.
   set (C := filter (fun x => negb (is_var_json x)) pl) in *.
   destruct (forallb is_scalar dl) eqn:Esc.
@@ -1438,7 +1414,7 @@ Proof.
       apply (Permutation_in _ (Permutation_sym HP)). apply in_or_app. left. exact Hd. }
     assert (HD'sc : forall d, In d D' -> is_scalar d = true).
     { intros d Hd. rewrite forallb_forall in Esc. apply Esc. apply HD'dl. exact Hd. }
-    destruct (consts_subseq b pl D' HF HD'sc Hnn) as [Hss HC]. fold C in Hss, HC.
+    destruct (consts_subseq b pl D' HF HD'sc) as [Hss HC]. fold C in Hss, HC.
     apply PL_sub; [exact Hk| | |exact HPL].
     + apply (sorted_consts_subseq C dl); auto.
       * eapply subseq_NoDup; eassumption.
@@ -1472,7 +1448,7 @@ Proof.
         -- exfalso. assert (Hx : scalar_const x = true).
            { unfold scalar_const. rewrite Esx, Ev. reflexivity. }
            pose proof (Lay_scalar _ _ _ Hx Hxd) as ->. congruence.
-        -- rewrite (picast_struct _ Esx). apply PL_match; [exact Hk| |exact HPL].
+        -- apply PL_match; [exact Hk| |exact HPL].
            apply VL_lay; [apply Hoks; left; reflexivity| |exact Hxd].
            cbn [wf_json forallb] in Hwf. rewrite andb_true_r in Hwf. exact Hwf.
 Qed.
@@ -1493,7 +1469,6 @@ Proof.
         destruct (ppath f (map (fun x => (k, x)) ys ++ pp)) as [π1|]; try discriminate;
         injection H as <-; eexists; eexists; split; reflexivity.
     + destruct (sort_values (filter (fun x => negb (is_var_json x)) l)) as [sorted|]; [|discriminate].
-      rewrite <- (map_map picast (fun x => (k, x))) in H.
       rewrite !app_assoc in H. rewrite <- !map_app in H.
       destruct (IH _ _ _ H) as [Hl|(f' & Hf' & Hp)]; [left; exact Hl|].
       right. exists f'. split; [lia|exact Hp].
@@ -1514,18 +1489,17 @@ Section MainInduction.
     PL b pp ep ->
     sort_values (filter (fun x => negb (is_var_json x)) pl) = Some sc ->
     ppath f (map (fun x => (k, x)) (filter is_var_json pl)
-             ++ map (fun x => (k, picast x)) sc ++ pp) = Some π ->
+             ++ map (fun x => (k, x)) sc ++ pp) = Some π ->
     finds π ((k, JArr dl) :: ep).
   Proof.
     intros Hf Hk Hok Hwf HLay HPL Hsc Hp.
     assert (Htail : forall sd, sort_values dl = Some sd ->
-              PL b (map (fun x => (k, picast x)) sc ++ pp) (map (fun x => (k, x)) sd ++ ep)).
+              PL b (map (fun x => (k, x)) sc ++ pp) (map (fun x => (k, x)) sd ++ ep)).
     { intros sd Hsd. eapply arr_PL; eassumption. }
-    destruct (pat_ok_arr _ Hok) as (Hlen & _ & _).
+    destruct (pat_ok_arr _ Hok) as (Hlen & _).
     destruct (filter is_var_json pl) as [|v [|v2 V]] eqn:EV.
     - cbn [map app] in Hp. apply finds_arr.
-      + rewrite <- (map_map picast (fun x => (k, x))) in Hp.
-        destruct (ppath_head k Hk _ _ _ _ Hp) as [Hl|(f' & Hf' & Hp')]; [left; exact Hl|].
+      + destruct (ppath_head k Hk _ _ _ _ Hp) as [Hl|(f' & Hf' & Hp')]; [left; exact Hl|].
         right. eapply (IHF f'); [lia|exact Hp'|exact HPL].
       + intros sd Hsd. apply (IHF f Hf _ _ _ Hp). apply Htail. exact Hsd.
     - assert (Hv : is_var_json v = true).
@@ -1535,7 +1509,7 @@ Section MainInduction.
       cbn [map app] in Hp. destruct f as [|f]; [discriminate|].
       rewrite ppath_S in Hp. cbv zeta in Hp.
       rewrite (pkey_nonvar _ Hk), (picast_var _ Hv), Hv in Hp.
-      destruct (ppath f (map (fun x => (k, picast x)) sc ++ pp)) as [π1|] eqn:Ep; [|discriminate].
+      destruct (ppath f (map (fun x => (k, x)) sc ++ pp)) as [π1|] eqn:Ep; [|discriminate].
       injection Hp as <-. apply finds_var_arr.
       intros sd Hsd. eapply (IHF f); [lia|exact Ep|]. apply Htail. exact Hsd.
     - cbn [length] in Hlen. lia.
@@ -1557,7 +1531,7 @@ Proof.
       { intros tok Hpv Hnv Hdv. rewrite Hpv, Hnv in Hp.
         destruct (ppath f pp) as [π1|] eqn:Ep; [|discriminate]. injection Hp as <-.
         apply finds_tok; [exact Hdv|]. apply (IHF f Hf' _ _ _ Ep HPL). }
-      destruct HVL as [pv dv Hok Hwf HLay|c Hc Hn].
+      destruct HVL as [pv dv Hok Hwf HLay|c Hc].
       * destruct (scalar_const pv) eqn:Esc.
         -- pose proof (Lay_scalar _ _ _ Esc HLay) as ->.
            destruct (scalar_picast _ Esc) as (tok & Htk & Hnv). apply (Htok tok); assumption.
@@ -1590,8 +1564,7 @@ Proof.
               apply VL_lay; [exact Hok2| |exact HL2].
               apply (Hwfs k2). apply AssocLemmas.alookup_In. exact Hl2.
       * destruct (scalar_picast _ Hc) as (tok & Htk & Hnv).
-        apply (Htok tok); [|exact Hnv|exact Htk].
-        rewrite (picast_idem _ Hc Hn). exact Htk.
+        apply (Htok tok); assumption.
 Qed.
 
 (** * The main theorem *)
@@ -1640,17 +1613,16 @@ Lemma propvar_shadow_refuted :
   pi_search (fst (pi_add pn_empty p1 "r1")) ev = Ok ["r1"].
 Proof. vm_compute. repeat split; auto. Qed.
 
-(** [null] inside a pattern array is cast twice ("null" then "S_null") by
-    [pmod] but once by the search: the pattern is never found. *)
-Lemma null_in_array_counterexample :
+(** [null] inside a pattern array (formerly cast twice by [mod], and never
+    found) is now found. *)
+Lemma null_in_array_now_found :
   let p := JObj [("a", JArr [JNull])] in
-  let n := fst (pi_add pn_empty p "r1") in
-  wf_json p = true /\ no_propvar_keys p = true /\ arrays_ok p = false /\
-  snd (pi_add pn_empty p "r1") = None /\
-  pattern_path p = Some [StTok "a" "S_null"] /\
-  tr_has n [StTok "a" "S_null"] "r1" /\
+  let n := fst (pi_add pn_empty p "r") in
+  wf_json p = true /\ no_propvar_keys p = true /\ arrays_ok p = true /\
+  snd (pi_add pn_empty p "r") = None /\
+  pattern_path p = Some [StTok "a" "null"] /\
   lay (lay_fuel p) [] p p = true /\
-  pi_search n p = Ok [].
+  pi_search n p = Ok ["r"].
 Proof. vm_compute. repeat split; auto. Qed.
 
 (** Two variables in one pattern array: the second variable must consume an
